@@ -153,8 +153,11 @@ func (w *worker) get(k uint64, mode int) {
 		tr.Emit(vt.Ev{"ev": "get-end", "g": w.g, "k": k, "m": mode, "h": 0, "v": 0, "c": ran})
 		return
 	}
-	v := hh.Value().(*val)
 	id := atomic.AddInt64(&nhid, 1)
+	v, alive := hh.Value().(*val)
+	if !alive { // the handle in our hand already lost its value: report it as handed out dead (v = 0)
+		v = &val{}
+	}
 	n := atomic.AddInt64(&curHeld, 1)
 	for {
 		m := atomic.LoadInt64(&maxHeld)
